@@ -185,6 +185,8 @@ def gen_trace(seed: int, tier: str) -> dict:
         seed, n_events=n, fault_rate=0.35 if arm == "fault" else 0.0,
         src_fault_rate=0.3 if arm == "fault" else 0.0, every_event_ckpt=(arm == "everyckpt"),
         always=("slides",))
+    # between two sessions another program rewrote the file: hover actions on the relationships of the click actions, booleans as words
+    common.rewritten_between_sessions(seed, events, hows=("hover_links", "hover_links", "bool_words"), rate=0.4)
     return {"property": ID, "seed": seed, "tier": tier,
             "config": {"arm": arm, "families": sw["families"], "max_slides": 12, "max_shapes": 40},
             "start": [start], "events": events}
